@@ -244,6 +244,20 @@ where
         Ok(())
     }
 
+    /// Installs `mem` as the guest memory and tells the backend about it. If the backend
+    /// refuses the update, the previous guest memory is put back, so that a failed request
+    /// leaves the memory the vrings and the backend see as it was.
+    fn replace_memory(&mut self, mem: GuestMemoryMmap<T::Bitmap>) -> VhostUserResult<()> {
+        let previous = self.atomic_mem.memory();
+        self.atomic_mem.lock().unwrap().replace(mem);
+
+        if let Err(e) = self.backend.update_memory(self.atomic_mem.clone()) {
+            self.atomic_mem.lock().unwrap().replace((*previous).clone());
+            return Err(VhostUserError::ReqHandlerError(io::Error::other(e)));
+        }
+        Ok(())
+    }
+
     /// Helper to check if VirtioFeature enabled
     fn check_feature(&self, feat: VhostUserVirtioFeatures) -> VhostUserResult<()> {
         if self.acked_features & feat.bits() != 0 {
@@ -358,11 +372,7 @@ where
 
         // Updating the inner GuestMemory object here will cause all our vrings to
         // see the new one the next time they call to `atomic_mem.memory()`.
-        self.atomic_mem.lock().unwrap().replace(mem);
-
-        self.backend
-            .update_memory(self.atomic_mem.clone())
-            .map_err(|e| VhostUserError::ReqHandlerError(io::Error::other(e)))?;
+        self.replace_memory(mem)?;
         self.mappings = mappings;
 
         Ok(())
@@ -645,11 +655,7 @@ where
             .insert_region(guest_region)
             .map_err(|e| VhostUserError::ReqHandlerError(io::Error::other(e)))?;
 
-        self.atomic_mem.lock().unwrap().replace(mem);
-
-        self.backend
-            .update_memory(self.atomic_mem.clone())
-            .map_err(|e| VhostUserError::ReqHandlerError(io::Error::other(e)))?;
+        self.replace_memory(mem)?;
 
         self.mappings.push(addr_mapping);
 
@@ -663,11 +669,7 @@ where
             .remove_region(GuestAddress(region.guest_phys_addr), region.memory_size)
             .map_err(|e| VhostUserError::ReqHandlerError(io::Error::other(e)))?;
 
-        self.atomic_mem.lock().unwrap().replace(mem);
-
-        self.backend
-            .update_memory(self.atomic_mem.clone())
-            .map_err(|e| VhostUserError::ReqHandlerError(io::Error::other(e)))?;
+        self.replace_memory(mem)?;
 
         self.mappings
             .retain(|mapping| mapping.gpa_base != region.guest_phys_addr);
